@@ -189,15 +189,16 @@ def check_value_mapping(ctx):
     f = repo.fn(CONVERTER, 'series_to_str')
     view = view_of(f)
     conds = Conds(f.node, None)
-    lambdas = [(n, None) for n in ast.walk(f.node) if isinstance(n, ast.Lambda)]
+    lambdas = [(n, n.body, n.args.args[0].arg) for n in ast.walk(f.node) if isinstance(n, ast.Lambda) and n.args.args]
+    for c in ast.walk(f.node):
+        if isinstance(c, (ast.ListComp, ast.GeneratorExp)) and len(c.generators) == 1 and isinstance(c.generators[0].target, ast.Name):
+            lambdas.append((c, c.elt, c.generators[0].target.id))
     n = 0
-    for lam, _ in lambdas:
-        body = lam.body
+    for lam, body, v in lambdas:
         strs = [c for c in ast.walk(body) if isinstance(c, ast.Call) and isinstance(c.func, ast.Name) and c.func.id == 'str']
         if not strs:
             continue
         n += 1
-        v = lam.args.args[0].arg
         ok = isinstance(body, ast.IfExp)
         why = 'the element mapping `%s` converts without testing for a missing value: NaN becomes the string \'nan\'' % U(lam)[:80]
         if ok:
@@ -232,6 +233,27 @@ def check_value_mapping(ctx):
                       'str(int(v)) is used under `%s`: it may only be used when every present value is integral' % txt[:100], lam,
                       sample='under int_values == len(col_non_nan_values)')
     ctx.floor('R-CONV/nan-preserving', n, 2, 'element mappings')
+
+
+def check_index_preserving(ctx):
+    """The converted column keeps the input's row labels: it is produced by an element-wise method of the input
+    Series (astype / apply / map / copy), or rebuilt with index=<input>.index."""
+    repo = ctx.repo
+    f = repo.fn(CONVERTER, 'series_to_str')
+    sp = f.params[0]
+    n = 0
+    for c in repo.calls_in(f):
+        if U(c.func) in ('pd.Series', 'pandas.Series', 'Series'):
+            n += 1
+            kws = {k.arg: k.value for k in c.keywords}
+            idx = kws.get('index', c.args[1] if len(c.args) > 1 else None)
+            ok = idx is not None and U(idx) == '%s.index' % sp
+            ctx.check('R-CONV/index-preserving', f, 'Series(..) #%d' % n, ok,
+                      'the converted column is rebuilt as `%s` without index=%s.index: values lose their row labels and land on '
+                      'the wrong rows (or become missing) when the frame is not 0..n-1 indexed' % (U(c)[:70], sp), c,
+                      sample='index=%s.index' % sp)
+    ctx.check('R-CONV/index-preserving', f, 'constructor scan', True, nontrivial=False,
+              sample='%d pd.Series(..) constructions' % n)
 
 
 def check_lost_update(ctx):
@@ -287,4 +309,5 @@ def run(ctx, gate=True, converter=True):
         check_heads(ctx)
         check_return_kinds(ctx)
         check_value_mapping(ctx)
+        check_index_preserving(ctx)
         check_lost_update(ctx)
